@@ -109,3 +109,12 @@ let () =
     String.concat " ; " (List.map (fun g ->
       if g = [] then "-" else
         String.concat " " (List.map (fun (e, os) -> String.concat " " (tag_of_event e :: List.map tok_of_out os)) g)) res))
+
+(* watch <ready> <w>...  with w = e<0|1>o<0|1>f<flags>  ->  woke=<a>,<b> handled=<x>,<y>  (Robust.Watch.iterate, first and a later iteration) *)
+let () =
+  reg "watch" (fun (ready :: ws) ->
+    let w_of t = { w_enabled = t.[1] = '1'; w_oom = t.[3] = '1'; w_flags = n_of_int (int_of_string (String.sub t 5 (String.length t - 5))) } in
+    let l = List.map w_of ws in
+    let r = n_of_int (int_of_string ready) in
+    let (a, x) = iterate l r true and (b, y) = iterate l r false in
+    Printf.sprintf "woke=%s,%s handled=%d,%d" (if a then "1" else "0") (if b then "1" else "0") (int_of_n x) (int_of_n y))
